@@ -627,6 +627,7 @@ func TestCheck(t *testing.T) {
 	debug.SetGCPercent(-1)
 	debug.SetMemoryLimit(192 << 20)
 	shard, of := mc.ShardFromEnv()
+	backpressure(t, rep, shard, of)
 	thorough := ev.Thorough()
 	budget := 70 * time.Second
 	if thorough {
